@@ -453,7 +453,7 @@ func init() {
 		Units: func(tier string) []Unit {
 			depth := 5
 			if tier == "thorough" {
-				depth = 7
+				depth = 8
 			}
 			var us []Unit
 			for _, s := range c05Systems(tier) {
